@@ -739,6 +739,19 @@ theorem result_index (t : Table) (req : List Req) (res : List (Nat × Cells)) (h
     (h : t.interpolate req = .ok res) : res.map (·.1) = req.map (·.label) := by
   rw [lookup_pointwise t req res hc h, List.map_map]; rfl
 
+/-- reads have no memory: the model's read is a function of the table, the clock and the CURRENT
+attributes of the requested simulants only – no earlier read, no attribute of a simulant outside the
+request, no other table enters. In particular a simulant covered by two accepted reads (the same read
+repeated, a sub-index, a permutation, another caller) whose attributes did not change in between
+receives the same cells in both. -/
+theorem read_covered (t : Table) (req req' : List Req) (res res' : List (Nat × Cells))
+    (hc : Consistent req) (hc' : Consistent req')
+    (h : t.interpolate req = .ok res) (h' : t.interpolate req' = .ok res') (r : Req) (hr : r ∈ req) (hr' : r ∈ req') :
+    ∃ cells, (r.label, cells) ∈ res ∧ (r.label, cells) ∈ res' := by
+  refine ⟨interpOne (groupRows t.rows r.keys) t.np r.xs, ?_, ?_⟩
+  · rw [lookup_pointwise t req res hc h]; exact List.mem_map.mpr ⟨r, hr, rfl⟩
+  · rw [lookup_pointwise t req' res' hc' h']; exact List.mem_map.mpr ⟨r, hr', rfl⟩
+
 /-- the whole property for binned tables: in an accepted call on a well-formed table every requested
 simulant receives the value cells of THE data row whose key columns equal its attributes and whose
 bins cover its parameter values. -/
